@@ -29,7 +29,7 @@ KnownFd(f) == f \in Fds
 
 T_Reset ==
     /\ Is("Reset")
-    /\ FsReset(E.prev, E.full)
+    /\ FsReset(E.prevk, E.full)
     /\ tcur' = E
 
 T_Open ==
@@ -130,7 +130,7 @@ T_Post ==
 
 TInit ==
     /\ tl = 1 /\ tcur = [ev |-> "none"]
-    /\ FsInit(FALSE, 0)
+    /\ FsInit("absent", 0)
     /\ vop = "trace" /\ vpc = "trace" /\ vdone = 0 /\ vneed = 0 /\ vnfault = 0 /\ vread = 0
 
 TNext ==
